@@ -14,6 +14,7 @@ import Verif.Lemmas.ChainF
 import Verif.Lemmas.Ancestor
 import Verif.Lemmas.Adopt
 import Verif.Lemmas.Mutex
+import Verif.Lemmas.ChainFF
 
 namespace Verif.C01
 open Verif.Chain
@@ -302,15 +303,12 @@ whether its blocks are new, already stored as side blocks, or were already refus
 a longer invalid chain — and whose last block heads a chain that is valid all the way down to
 genesis and sufficiently heavier than the tip, is accepted without error and becomes the tip
 (with exactly one notification, by `tip_moves_only_if_heavier`) -/
-theorem valid_heavier_chain_adopted {U} (hU : WFU U) (hist : List (List Nat)) (batch : List Nat) (last : Nat)
-    (hlast : batch.getLastD (run U Mgr.init hist).tip = last) (hne : batch ≠ [])
-    (hgood : GoodRun U (run U Mgr.init hist) (run U Mgr.init hist).tip batch)
+theorem valid_heavier_chain_adopted_of_inv {U} (hU : WFU U) (m : Mgr) (h : Inv U m) (batch : List Nat) (last : Nat)
+    (hlast : batch.getLastD m.tip = last) (hne : batch ≠ [])
+    (hgood : GoodRun U m m.tip batch)
     (hvalid : ∀ k, k < (U last).height → (U (anc U k last)).bodyOk = true)
-    (hheavy : heavier U last (run U Mgr.init hist).tip = true) :
-    (addBlocks U (run U Mgr.init hist) batch).2 = none ∧
-    (addBlocks U (run U Mgr.init hist) batch).1.tip = last := by
-  have h := inv_reachable hU hist
-  generalize run U Mgr.init hist = m at *
+    (hheavy : heavier U last m.tip = true) :
+    (addBlocks U m batch).2 = none ∧ (addBlocks U m batch).1.tip = last := by
   cases batch with
   | nil => exact absurd rfl hne
   | cons b bs =>
@@ -327,6 +325,15 @@ theorem valid_heavier_chain_adopted {U} (hU : WFU U) (hist : List (List Nat)) (b
     have htip : m1.tip = m.tip := by simp [Mgr.tip, j2]
     exact maybeReorg_adopts j1 j5 hvalid (by rw [htip]; exact hheavy)
 
+theorem valid_heavier_chain_adopted {U} (hU : WFU U) (hist : List (List Nat)) (batch : List Nat) (last : Nat)
+    (hlast : batch.getLastD (run U Mgr.init hist).tip = last) (hne : batch ≠ [])
+    (hgood : GoodRun U (run U Mgr.init hist) (run U Mgr.init hist).tip batch)
+    (hvalid : ∀ k, k < (U last).height → (U (anc U k last)).bodyOk = true)
+    (hheavy : heavier U last (run U Mgr.init hist).tip = true) :
+    (addBlocks U (run U Mgr.init hist) batch).2 = none ∧
+    (addBlocks U (run U Mgr.init hist) batch).1.tip = last :=
+  valid_heavier_chain_adopted_of_inv hU _ (inv_reachable hU hist) batch last hlast hne hgood hvalid hheavy
+
 /-- non-vacuity, and the history of a seeded faulty variant: fork 3-4-5 is refused (4 is invalid),
 the valid heavier sibling chain 1-2-6 is then offered again as a batch of already stored blocks
 plus one — and adopted -/
@@ -336,6 +343,93 @@ example : GoodRun Uex (run Uex Mgr.init [[1, 2], [3, 4, 5]]) (run Uex Mgr.init [
   refine ⟨?_, by decide, by decide⟩
   simp only [GoodRun]
   refine ⟨Or.inl (by decide), by decide, by decide, trivial⟩
+
+/-! ### a store whose `Flush` fails in the middle of a submission
+
+The store is a dependency of the manager. `Model/ChainFF.lean` is `AddBlocks` when the first
+`Flush` the call reaches returns an error. Histories may contain such submissions anywhere. -/
+
+/-- a submission, and whether the first store flush it reaches fails -/
+def stepX (U : Nat → Blk) (m : Mgr) (b : List Nat × Bool) : Mgr :=
+  if b.2 then (addBlocksFF U m b.1).1 else (addBlocks U m b.1).1
+
+def runX (U : Nat → Blk) (m : Mgr) (hist : List (List Nat × Bool)) : Mgr := hist.foldl (stepX U) m
+
+theorem inv_reachableX {U} (hU : WFU U) (hist : List (List Nat × Bool)) : Inv U (runX U Mgr.init hist) := by
+  suffices h : ∀ m, Inv U m → Inv U (runX U m hist) from h _ (inv_init hU)
+  induction hist with
+  | nil => intro m h; exact h
+  | cons b bs ih =>
+    intro m h
+    apply ih
+    simp only [stepX]
+    split
+    · exact (addBlocksFF_spec hU h b.1).1
+    · exact (addBlocks_spec hU h b.1).1
+
+/-- **a failed flush is rolled back**: after any history (with or without earlier flush
+failures), a submission during which the store's flush fails leaves the best chain — hence tip,
+tip state and every per-height query — and the number of notifications exactly as before, in a
+state that satisfies the invariant all other theorems start from; nothing stored is lost -/
+theorem failed_flush_rolls_back {U} (hU : WFU U) (hist : List (List Nat × Bool)) (batch : List Nat) :
+    let m := runX U Mgr.init hist
+    (addBlocksFF U m batch).1.best = m.best ∧ (addBlocksFF U m batch).1.notified = m.notified ∧
+    Inv U (addBlocksFF U m batch).1 ∧ (∀ i, m.states i = true → (addBlocksFF U m batch).1.states i = true) := by
+  intro m
+  obtain ⟨a, b, c, d⟩ := addBlocksFF_spec hU (inv_reachableX hU hist) batch
+  exact ⟨c, d, a, b⟩
+
+/-- **and the chain is adopted when it is offered again**: a valid sufficiently heavier chain
+whose submission hit a failing flush is answered with "reorg failed", and the SAME batch — all of
+its blocks now stored with supplements — is accepted and becomes the tip when resubmitted (the
+seeded "nothing new in this batch, return early" and "skip the rollback when the tip already is
+the target" variants fail exactly here) -/
+theorem adopted_after_failed_flush {U} (hU : WFU U) (hist : List (List Nat × Bool)) (batch : List Nat) (last : Nat)
+    (hlast : batch.getLastD (runX U Mgr.init hist).tip = last) (hne : batch ≠ [])
+    (hgood : GoodRun U (runX U Mgr.init hist) (runX U Mgr.init hist).tip batch)
+    (hvalid : ∀ k, k < (U last).height → (U (anc U k last)).bodyOk = true)
+    (hheavy : heavier U last (runX U Mgr.init hist).tip = true) :
+    let m' := (addBlocksFF U (runX U Mgr.init hist) batch).1
+    (addBlocksFF U (runX U Mgr.init hist) batch).2 = some .reorgFailed ∧
+    (addBlocks U m' batch).2 = none ∧ (addBlocks U m' batch).1.tip = last := by
+  have h := inv_reachableX hU hist
+  generalize runX U Mgr.init hist = m at *
+  intro m'
+  obtain ⟨a, b, c, _⟩ := addBlocksFF_spec hU h batch
+  have htip : m'.tip = m.tip := by simp only [Mgr.tip]; rw [show m'.best = m.best from c]
+  refine ⟨?_, ?_⟩
+  · cases batch with
+    | nil => exact absurd rfl hne
+    | cons b0 bs =>
+      simp only [addBlocksFF]
+      obtain ⟨g1, g2⟩ := addLoop_good hU (b0 :: bs) m m.tip h h.tip_state hgood
+      obtain ⟨j1, j2, _, _, j5, _⟩ := addLoop_spec hU (b0 :: bs) m m.tip h h.tip_state
+      rcases hg : addBlocks.go U (b0 :: bs) m m.tip with ⟨m1, e, cs⟩
+      rw [hg] at g1 g2 j1 j2 j5
+      simp only at g1 g2 j1 j2 j5
+      subst g1
+      simp only
+      have hcs : cs = last := by rw [g2, hlast]
+      subst hcs
+      have htip1 : m1.tip = m.tip := by simp [Mgr.tip, j2]
+      obtain ⟨_, _, _, _, k⟩ := maybeReorgFF_spec j1 j5
+      have hv := (reorgTo_valid j1 j5 hvalid).1
+      rcases k with ⟨k1, _⟩ | ⟨_, _, k3⟩ | ⟨_, k2, _⟩
+      · rw [htip1, hheavy] at k1; cases k1
+      · exact k3
+      · exact absurd hv k2
+  · exact valid_heavier_chain_adopted_of_inv hU m' a batch last (by rw [htip]; exact hlast) hne
+      (by rw [htip]; exact GoodRun.mono b hgood) hvalid (by rw [htip]; exact hheavy)
+
+/-- non-vacuity on the example universe: after [1,2], the heavier fork 3-4-5... is invalid; the
+valid heavier chain 1-2-6 meets a failing flush, is rolled back, and is adopted on resubmission -/
+example :
+    (addBlocksFF Uex (runX Uex Mgr.init [([1, 2], false)]) [6]).2 = some .reorgFailed ∧
+    (addBlocksFF Uex (runX Uex Mgr.init [([1, 2], false)]) [6]).1.best = [2, 1, 0] ∧
+    (addBlocks Uex (addBlocksFF Uex (runX Uex Mgr.init [([1, 2], false)]) [6]).1 [6]).1.best = [6, 2, 1, 0] ∧
+    -- an invalid fork and a failing flush: the first flush reached is the rollback's
+    (addBlocksFF Uex (runX Uex Mgr.init [([1, 2], false)]) [3, 4, 5]).2 = some .rollbackFailed ∧
+    (addBlocksFF Uex (runX Uex Mgr.init [([1, 2], false)]) [3, 4, 5]).1.best = [2, 1, 0] := by decide
 
 /-! ### atomicity licence: callers of a lock-disciplined object are serialisable
 
